@@ -55,7 +55,12 @@ def plan(tier):
     if tier == "quick":
         # a fixed selection of length-3 streams so that surplus documents on
         # either side occur in the quick tier too
-        STREAMS += [(0, 1, 2), (2, 0, 1), (3, 0, 0), (0, 5, 1), (1, 4, 0)]
+        STREAMS += [(0, 1, 2), (2, 0, 1), (3, 0, 0), (0, 5, 1), (1, 4, 0),
+                    # a left stream LONGER than the right one whose documents
+                    # take whole nodes of the right documents (new keys, an
+                    # empty document): what one left document received must
+                    # not be what the next one is given
+                    (2, 2, 2), (2, 5, 2), (5, 2, 2), (2, 4, 2)]
     bounds = {"pool": [render_doc(d) for d in POOL],
               "max_stream_length": nmax, "streams": len(STREAMS),
               "modes": list(MODES), "policy_vectors": len(POLS)}
